@@ -32,7 +32,14 @@ impl std::fmt::Debug for RVal {
         match self {
             RVal::Null => write!(f, "NULL"),
             RVal::Int(i) => write!(f, "{}", i),
-            RVal::Float(b) => write!(f, "{:?}f", f64::from_bits(*b)),
+            RVal::Float(b) => {
+                let x = f64::from_bits(*b);
+                if x.is_nan() {
+                    write!(f, "NaN[{:016x}]f", b)
+                } else {
+                    write!(f, "{:?}f", x)
+                }
+            }
             RVal::Str(s) => {
                 if s.len() > 40 {
                     write!(f, "{:?}..({}B)", &s.chars().take(16).collect::<String>(), s.len())
